@@ -670,6 +670,12 @@ func (fx *FnExec) copyBuiltin(fr *frame, st *State, cc *ssa.CallCommon, args []V
 		fx.assumeGlobal(c.Forall([]*Term{k}, c.Eq(c.Select(narr, k), c.Ite(in, c.Select(src, c.BVBin("bvadd", soff, rel)), c.Select(darr, k)))))
 	}
 	fx.setElemArray(st, et, dst.Ref, narr)
+	if narr.Sort == byteArr && narr.Op == "const" {
+		if fx.arrOrigins == nil {
+			fx.arrOrigins = map[*Term]arrOrigin{}
+		}
+		fx.arrOrigins[narr] = arrOrigin{src: src, soff: soff, srcRef: srcRef, old: darr, doff: dst.Off, n: n}
+	}
 	fx.curPC = st.pc
 	fx.arrayUpdated(darr, narr, dst.Off, n)
 	if src.Sort == byteArr {
